@@ -32,6 +32,7 @@ package subscription
 //@ func ExecutorEngine.executeSubscription
 //@   requires e != nil
 //@   at call EventHandler.Emit: assert {events.carry.the.operation.id.and.go.to.the.operations.handler} arg2 == id && arg0 == eventHandler
+//@   at call EventHandler.Emit: assert {nothing.is.emitted.for.the.id.after.the.terminal.event.of.this.execution} count(terminalEmitted) == old(count(terminalEmitted))
 //@   ensures {at.most.one.terminal.event.per.execution} count(terminalEmitted) <= old(count(terminalEmitted)) + 1
 //@   modifies *, count(emitted), count(terminalEmitted)
 
